@@ -438,3 +438,46 @@ impl VolatileState {
         }
 //@end
 }
+
+// ---- channel creation (C16) ----
+pub open spec fn fresh_modes(m: ChannelModes, nick: String) -> bool {
+    &&& m.ban is None && m.exception is None && m.client_limit is None && m.invite_exception is None && m.key is None
+    &&& oset(m.operators) == Set::<String>::empty().insert(nick) && oset(m.founders) == Set::<String>::empty().insert(nick)
+    &&& oset(m.half_operators) == Set::<String>::empty() && oset(m.voices) == Set::<String>::empty() && oset(m.protecteds) == Set::<String>::empty()
+    &&& !m.invite_only && !m.moderated && !m.secret && !m.protected_topic && !m.no_external_messages
+}
+pub open spec fn fresh_channel(c: Channel, nick: String) -> bool {
+    &&& c.topic is None
+    &&& fresh_modes(c.modes, nick)
+    &&& c.default_modes.operators@ == Set::<String>::empty() && c.default_modes.half_operators@ == Set::<String>::empty()
+    &&& c.default_modes.voices@ == Set::<String>::empty() && c.default_modes.founders@ == Set::<String>::empty()
+    &&& c.default_modes.protecteds@ == Set::<String>::empty()
+    &&& c.ban_info@ == Map::<String, BanInfo>::empty()
+    &&& c.users@ == Map::<String, ChannelUserModes>::empty().insert(nick, ChannelUserModes { founder: true, protected: false, voice: false, operator: true, half_oper: false })
+    &&& !c.preconfigured
+}
+pub broadcast proof fn lemma_seq1_to_set(s: Seq<String>)
+    requires s.len() == 1
+    ensures #[trigger] s.to_set() == Set::<String>::empty().insert(s[0])
+{
+    assert forall|x: String| s.to_set().contains(x) <==> x == s[0] by {
+        if x == s[0] { assert(s.contains(s[0])); }
+    }
+    assert(s.to_set() =~= Set::<String>::empty().insert(s[0]));
+}
+impl ChannelModes {
+//@fn config.rs ChannelModes::new_for_channel unit=structs props=C16
+//@spec
+        ensures fresh_modes(r, user_nick), // @prop C16
+//@open
+        broadcast use group_hash_axioms, bridge, lemma_seq1_to_set;
+//@end
+}
+impl Channel {
+//@fn state/structs.rs Channel::new_on_user_join unit=structs props=C16,C07
+//@spec
+        ensures fresh_channel(r, user_nick), chan_wf(r), // @prop C16
+//@open
+        broadcast use group_hash_axioms, bridge;
+//@end
+}
